@@ -48,6 +48,17 @@ def setup_state(sim, S, state, rng, k):
         S.set_frag(rng.choice([4093, 4094, 4095, 4096, 8000, 65535]))
         k.offer_tun("srv", proto.make_frame("10.9.0.1", S.tun_ip, 81, rng.choice([4300, 6100, 9000, 30000]), "random", rng), 81)
         S.ping(50000)
+    elif state == "server_full":
+        # every slot taken by version handshakes (they need no password); more follow during the attack
+        for j in range(20):
+            mc = mclient.ModelClient("10.53.3.%d" % (j + 1), (scen.SERVER_IP, 53), sim.domain, sim.password, random.Random(rng.getrandbits(32)),
+                                     qtype=rng.choice(list(proto.QTYPES.values())))
+            k.add_actor(mc.ip, mc)
+            pl = mc.version()
+            if pl and pl[:4] == b"VFUL":
+                for _ in range(rng.randint(1, 3)):
+                    mc.version()
+                break
     elif state == "raw":
         S.raw_login()
         k.run(k.now + 50000)
@@ -122,7 +133,7 @@ def up_stream_burst(S, k, rng, st, sizes=(16, 48, 64)):
         k.run(k.now + rng.choice([50, 200, 1000]))
 
 
-STATES = ["after_login", "lazy_held", "mid_upstream", "mid_downstream", "queue_full", "realsoon", "raw", "codec128", "codec64", "big_frag"]
+STATES = ["after_login", "lazy_held", "mid_upstream", "mid_downstream", "queue_full", "realsoon", "raw", "codec128", "codec64", "big_frag", "server_full"]
 
 
 def one_run(params):
@@ -193,7 +204,14 @@ def one_run(params):
                     up_stream_burst(S, k, rng, stream, (64,) if len(params["classes"]) == 1 else (2, 8, 16))
                     d = None
             else:
-                if rng.random() < 0.3 and S.tun_ip:
+                if rng.random() < 0.12 and S.tun_ip:
+                    # a packet for a live session, then the read on the tun descriptor fails
+                    k.offer_tun("srv", proto.make_frame("10.9.0.1", S.tun_ip, 95000 + i, rng.choice([40, 300, 1200]),
+                                                        "random", rng), None)
+                    for _ in range(rng.choice([1, 1, 3])):
+                        k.offer_tun_error("srv", rng.choice([5, 4, 11, 77]))
+                    sent_classes["tun_read_failure"] = sent_classes.get("tun_read_failure", 0) + 1
+                elif rng.random() < 0.3 and S.tun_ip:
                     # a well-addressed but oversized / odd packet for the sacrificial session
                     k.offer_tun("srv", proto.make_frame("10.9.0.1", S.tun_ip, 90 + i, rng.choice([24, 1500, 4096, 6100, 20000, 65000]),
                                                         rng.choice(["random", "zeros"]), rng), None)
@@ -301,10 +319,10 @@ def scn(params):
 def run(ctx):
     res = core.Result()
     res.rule = ("scenario = real iodined (ASan+UBSan, random options -c / -b / wildcard domain / netmask) with a healthy "
-                "model-client session and a sacrificial logged-in session placed in one of 10 protocol states, then "
+                "model-client session and a sacrificial logged-in session placed in one of 11 protocol states (incl. every slot taken), then "
                 "150-600 hostile inputs from 8 generator classes (arbitrary bytes, malformed DNS, tunnel-shaped "
                 "commands from outsiders and from the logged-in address, raw frames from both, hostile tun frames, "
-                "never-ending upstream packets of 70-140 KB in maximal fragments from the logged-in session) "
+                "never-ending upstream packets of 70-140 KB in maximal fragments from the logged-in session, failing reads on the tun descriptor) "
                 "interleaved with time advances; oracle: no sanitizer report, no exit, no stall, and the healthy "
                 "session still moves a frame each way afterwards. evaluations = hostile inputs delivered. "
                 "non-trivial/distinct = (session state, generator class, -c, wildcard) combinations that completed with the probe passing.")
